@@ -269,6 +269,14 @@ Section C17_histories.
       nth 1 (fresh_run M c0 madd mltb misz R rseed pick a seed_b target start fuel) None
         = Some (result cfga target fuel (rseed seed_b) start).
   Proof. exact (interleaved_sample M c0 madd mltb misz R rseed pick). Qed.
+  (** after ANY history a constructor call leaves the shared generator in the state of its seed; a sample call
+      touches nothing but the generator *)
+  Theorem C17_construct_resets_generator : forall st pre id a seed,
+    h_rng M R (fst (run2 st (pre ++ [Construct M id a seed]))) = rseed seed.
+  Proof. exact (construct_resets_generator M c0 madd mltb misz R rseed pick). Qed.
+  Theorem C17_sample_keeps_samplers : forall st id target start fuel,
+    h_samplers M R (fst (hstep2 M c0 madd mltb misz R rseed pick st (Sample M id target start fuel))) = h_samplers M R st.
+  Proof. exact (sample_keeps_samplers M c0 madd mltb misz R rseed pick). Qed.
   (** a sample after a FAILED sample runs from the state the failed call reached *)
   Theorem C17_sample_after_failed : forall st id a seed t1 s1 f1 t2 s2 f2 cfg,
     init M (a_frags M a) (a_poly M a) (a_fragreact M a) (a_term M a) (a_masses M a) = Ok cfg ->
@@ -341,3 +349,5 @@ Print Assumptions C17_sample_after_failed.
 Print Assumptions C17_sample_after_early_failure.
 Print Assumptions C17_failed_sample_consumes.
 Print Assumptions C17_interleaving_uses_last_seed.
+Print Assumptions C17_construct_resets_generator.
+Print Assumptions C17_sample_keeps_samplers.
